@@ -82,7 +82,28 @@ pub fn exec(op: &str, args: &[&str], out: &mut Out) -> Option<()> {
                 });
                 R::Ok(p.as_str().to_string())
             }
-            Err(e) => R::Err(format!("err {}", err_fields(&e, &s, out))),
+            Err(e) => {
+                // C14: a Report built with diagnose / diagnose_with / into_report hands back that same error and the original string
+                use jsonptr::diagnostic::Diagnose;
+                let r1 = Pointer::parse(&s).diagnose(s.clone()).err();
+                let r2 = Pointer::parse(&s).diagnose_with(|| s.clone()).err();
+                let r3 = Pointer::parse(&s).err().map(|e2| e2.into_report(s.clone()));
+                for (name, r) in [("diagnose", r1), ("diagnose_with", r2), ("into_report", r3)] {
+                    match r {
+                        Some(rep) => {
+                            out.check(rep.original() == &e && rep.subject() == s && *rep == e, "C14", || {
+                                format!("Report built with {name} for {s:?} does not hand back the same error and input")
+                            });
+                            if no_panic(|| format!("{rep} {rep:?}")).is_none() {
+                                out.fail("C14", format!("formatting the Report built with {name} for {s:?} panicked"));
+                            }
+                            out.check(rep.into_original() == e, "C14", || format!("Report::into_original for {s:?} differs"));
+                        }
+                        None => out.fail("C14", format!("{name} on the failed parse of {s:?} produced no Report")),
+                    }
+                }
+                R::Err(format!("err {}", err_fields(&e, &s, out)))
+            }
         },
         "bufparse" => match PointerBuf::parse(s.clone()) {
             Ok(p) => R::Ok(p.as_str().to_string()),
